@@ -10,9 +10,11 @@ import (
 	"encoding/json"
 	"fmt"
 	"os"
+	"runtime/metrics"
 	"runtime/pprof"
 	"strconv"
 	"strings"
+	"time"
 
 	"github.com/XiXi-2024/xixi-kv/vsim/h"
 )
@@ -22,6 +24,7 @@ func main() {
 		fmt.Fprintln(os.Stderr, "usage: simbin worker|exec|gen ...")
 		os.Exit(2)
 	}
+	go memoryGuard()
 	if pf := os.Getenv("VSIM_PPROF"); pf != "" {
 		f, _ := os.Create(pf)
 		pprof.StartCPUProfile(f)
@@ -117,4 +120,29 @@ func runIdx(prop, tier string, base uint64, idx int) *h.Result {
 		res.Case = c
 	}
 	return res
+}
+
+// memoryGuard ends the process when the live heap explodes (an engine loop that appends for ever, e.g. a writer
+// whose chunk size became zero): the sandbox has no memory limit of its own, and RLIMIT_AS is unusable with the
+// race detector and with 512 MiB mappings. The driver sees the death, recovers the case from the in-flight log
+// and reports it like any other fatal error of the run in progress. The guard is an ordinary goroutine outside the
+// simulator: it reads a runtime metric and touches nothing the simulation can observe.
+func memoryGuard() {
+	limit := uint64(3) << 30
+	if v, err := strconv.Atoi(os.Getenv("VSIM_MEMLIMIT_MB")); err == nil && v > 0 {
+		limit = uint64(v) << 20
+	}
+	sample := []metrics.Sample{{Name: "/memory/classes/total:bytes"}, {Name: "/memory/classes/heap/released:bytes"}}
+	for {
+		time.Sleep(100 * time.Millisecond)
+		metrics.Read(sample)
+		if sample[0].Value.Kind() != metrics.KindUint64 {
+			continue
+		}
+		used := sample[0].Value.Uint64() - sample[1].Value.Uint64()
+		if used > limit {
+			fmt.Fprintf(os.Stderr, "fatal error: runaway allocation: the process uses more than the simulator's limit of %d MiB\n", limit>>20)
+			os.Exit(67)
+		}
+	}
 }
